@@ -961,3 +961,9 @@ Qed.
 Lemma positions_length p rows : forall n, length (positions_from n p rows) = length (filter p rows).
 Proof. induction rows as [|r l IH]; intros n; simpl; [reflexivity|]. destruct (p r); simpl; now rewrite IH. Qed.
 End Filter.
+
+(* the draw filter returns a sub-sequence of the stored columns (all of them when no draw term is given) *)
+Theorem select_columns_sublist stored request : sublist (select_columns stored request) stored.
+Proof. destruct request; simpl; [apply sublist_filter | apply sublist_refl]. Qed.
+Theorem select_columns_spec stored cols c : In c (select_columns stored (Some cols)) <-> In c stored /\ In c cols.
+Proof. simpl. rewrite filter_In, zmem_In. tauto. Qed.
